@@ -49,7 +49,7 @@ CLAIMS = {
         "fermion, gluino, neutralino and chargino mass matrices equals an independently written Lagrangian expression (one generic spec per sector with the generation "
         "index, hence generation-exchange symmetry); after the tree-level EWSB elimination both EWSB equations vanish and the Higgs-sector trace/determinant sum rules "
         "(m_h^2+m_H^2 = m_A^2+m_Z^2, m_H+^2 = m_A^2+m_W^2, Goldstones at MZ^2, MW^2) hold; each monitored sector flags a tachyon on exactly the paths with a negative "
-        "eigenvalue and stores sqrt|w|; calculate_DRbar_masses restores mHd2, mHu2 (RAII frame) and writes no other parameter; the Goldstone reordering permutes masses and ROWS of ZA/ZP.  Goldstone reordering also for a spectrum accurate only to the eigen-solver's error bound (C04.goldstone_reordering.rounded_spectrum).",
+        "eigenvalue and stores sqrt|w|; calculate_DRbar_masses restores mHd2, mHu2 (RAII frame) and writes no other parameter; the Goldstone reordering permutes masses and ROWS of ZA/ZP.  Goldstone reordering also for a spectrum accurate only to the eigen-solver's error bound (C04.goldstone_reordering.rounded_spectrum).  The problems class behind the flags keeps a SET: after flag_tachyon(n) the list holds exactly the previous names plus n, for every set of sectors (exhaustive execution of the extracted code).",
    note=NOTE_COMMON + "A-LINALG (C12) assumed for fs_diagonalize_hermitian/fs_svd/fs_diagonalize_symmetric: reconstruction Z^dagger diag(m^2) Z, unitarity and ordering of the reported factors "
         "are exactly that assumption applied to the proved matrices; IEEE rounding not covered.",
    technique="symbolic execution of the extracted generated code + z3 NRA against an independent Lagrangian spec; exception/flag effects as ghost state", design='5 C04'),
@@ -122,7 +122,7 @@ CLAIMS = {
         "domain -- each shift guard removes the pole it is meant for and no unguarded pole remains (with and, per function, without the assumption that two removable singularities do not "
         "coincide); helpers are called inside their preconditions (modular); the guard in amu2L_B_EWadd only moves the argument (the unguarded temporary is dead downstream); the quark Barr-Zee functions FCWu, FCWd, f_CSu, f_CSd, phi_over_y "
         "under their documented/physical preconditions (xu yd == xd yu; down-type quark lighter than half the W and H+- masses) and their call sites fuHp/fdHp; dxlog's series "
-        "has the Taylor coefficients of its definition.  Counterexamples are replayed on the real code along the property's one-parameter path with the property's own 1%-band criterion.  MSSM: tan_alpha() returns the negative root of t x^2 + 2x - t = 0 (t = tan 2 alpha) on BOTH sides of M_A = M_Z for all tan(beta) != 1; at M_A bit-identical to M_Z exactly -1 for ALL tan(beta) in [1e-3,1e3] and M_Z in [1e-3,1e5] in IEEE round-to-nearest arithmetic (execution of the extracted function on sets of doubles, gm2v/fpset.py; no sampling).  The 20 one-argument loop/special functions return a finite number for EVERY double of their domain (same back end).  FLOATING-POINT side contract (standard model, u = 2^-53; not an A-REAL statement): the two guards with which phi_over_y recognises a zero of its denominator are above the rounding noise of the tested expression (guard constant >= 4 u mag(E)), so the exact coincidence m_H+ = m_t +- m_b takes the analytic limit.",
+        "has the Taylor coefficients of its definition.  Counterexamples are replayed on the real code along the property's one-parameter path with the property's own 1%-band criterion.  MSSM: tan_alpha() returns the negative root of t x^2 + 2x - t = 0 (t = tan 2 alpha) on BOTH sides of M_A = M_Z for all tan(beta) != 1; at M_A bit-identical to M_Z exactly -1 for ALL tan(beta) in [1e-3,1e3] and M_Z in [1e-3,1e5] in IEEE round-to-nearest arithmetic (execution of the extracted function on sets of doubles, gm2v/fpset.py; no sampling).  The 20 one-argument loop/special functions return a finite number for EVERY double of their domain (same back end).  FLOATING-POINT side contract (standard model, u = 2^-53; not an A-REAL statement): the two guards with which phi_over_y recognises a zero of its denominator are above the rounding noise of the tested expression (guard constant >= 4 u mag(E)), so the exact coincidence m_H+ = m_t +- m_b takes the analytic limit.  BOUNDED stand-in for the 1% band itself: the property's own test through the public API on 4 THDM and 4 MSSM base points (601 + 3697 one-parameter paths through the degenerate configurations formed from their masses, 9 distances each): all values finite and inside the band, except one open finding (smooth curvature near the pole of the resummed bottom Yukawa coupling, KNOWN-FINDING).",
    note=NOTE_COMMON + "NOT decided: the 1% band itself (size of the cancellations between pole terms after a shift of 1e-8) and everything about rounding; the neutral fermionic two-loop, the one-loop THDM and "
         "the MSSM functions are covered for this property only through the loop-function contracts of C01/C02 (equal-argument branches).  T7/T8 (complex square roots) only through their call-site preconditions. "
         "Four fixed findings (Kaellen zeros, m_h = 2 m_W, guard onto the pole at m_h = m_Z, guard order in YF3).",
